@@ -139,12 +139,16 @@ structure WS where
   working : Root
   staged : Root
   head : Root
+  /-- the staged root / the HEAD commit's root carries conflict artifacts (left there by an unvalidated
+  staged merge); artifacts are part of a root value's hash, so they matter for `rootsEqual` -/
+  sArt : Bool := false
+  hArt : Bool := false
 
 structure Sess where
   active : Bool := false      -- a transaction is open
   explicit : Bool := false    -- opened by BEGIN: autocommit ignored until COMMIT/ROLLBACK
   autocommit : Bool := true
-  snap : WS := ⟨[], [], []⟩   -- start state: working set + head resolved at the tx-start root
+  snap : WS := ⟨[], [], [], false, false⟩   -- start state: working set + head resolved at the tx-start root
   work : Root := []           -- own working root
   log : List WOp := []        -- ghost: own successful writes since tx start
 
@@ -154,7 +158,7 @@ structure World where
   /-- ghost: (start working root, committed working root) of every acknowledged commit, oldest first -/
   commits : List (Root × Root) := []
 
-def World.init : World := { shared := ⟨[], [], []⟩, sess := fun _ => {} }
+def World.init : World := { shared := ⟨[], [], [], false, false⟩, sess := fun _ => {} }
 
 def setSess (w : World) (i : Nat) (s : Sess) : World :=
   { w with sess := fun j => if j = i then s else w.sess j }
@@ -177,7 +181,7 @@ def endTx (w : World) (i : Nat) (keepExplicit : Bool) : World :=
   setSess w i { s with active := false, explicit := keepExplicit && s.explicit, work := [], log := [] }
 
 /-- `workingAndStagedEqual(existingWs, startState)`: nobody committed since the transaction began -/
-def isFF (E S : WS) : Bool := rootEq E.working S.working && rootEq E.staged S.staged
+def isFF (E S : WS) : Bool := rootEq E.working S.working && (rootEq E.staged S.staged && E.sArt == S.sArt)
 
 /-- `mergeRoots` of `doCommit`, working root: skipped when `rootsEqual(existing, ours)`; second
 component: the merge left conflicts (`validateWorkingSetForCommit` then rolls back) -/
@@ -185,22 +189,26 @@ def mergedWorking (E S : WS) (W : Root) : Root × Bool :=
   if rootEq E.working W then (W, false)
   else ((mergeRoots E.working W S.working).1, !(mergeRoots E.working W S.working).2.isEmpty)
 
-/-- `mergeRoots` of `doCommit`, staged root: conflicts keep the existing value and are NOT validated -/
-def mergedStaged (E S : WS) (St : Root) : Root :=
-  if rootEq E.staged St then St else (mergeRoots E.staged St S.staged).1
+/-- `mergeRoots` of `doCommit`, staged root (`St`, `stArt` = the session's staged root and whether it
+carries artifacts): conflicts keep the existing value, are recorded as artifacts and are NOT validated -/
+def mergedStaged (E S : WS) (St : Root) (stArt : Bool) : Root × Bool :=
+  if rootEq E.staged St && E.sArt == stArt then (St, stArt)
+  else ((mergeRoots E.staged St S.staged).1, E.sArt || !(mergeRoots E.staged St S.staged).2.isEmpty)
 
 /-- `doCommit` with `txCommit`/`doltCommit`, the whole body under the branch lock.  `dolt` = also
 create a dolt commit from `St` (the staged root the session wants to commit).
 `none` = rejected (conflicts): nothing written. -/
 def doCommit (E S : WS) (W St : Root) (dolt : Bool) : Option WS :=
+  let stArt := if dolt then false else S.sArt   -- `-A` stages the session's (artifact-free) working root
   let mw := if isFF E S then (W, false) else mergedWorking E S W
-  let ms := if isFF E S then St else mergedStaged E S St
+  let ms := if isFF E S then (St, stArt) else mergedStaged E S St stArt
   if mw.2 then none
   else if dolt then
     -- doltCommit: merge a moved HEAD into the staged root, commit it
-    let st := if rootEq E.head S.head then ms else (mergeRoots ms E.head S.head).1
-    some ⟨mw.1, st, st⟩
-  else some ⟨mw.1, ms, E.head⟩
+    let st := if rootEq E.head S.head && E.hArt == S.hArt then ms
+      else ((mergeRoots ms.1 E.head S.head).1, ms.2 || !(mergeRoots ms.1 E.head S.head).2.isEmpty)
+    some ⟨mw.1, st.1, st.1, st.2, st.2⟩
+  else some ⟨mw.1, ms.1, E.head, ms.2, E.hArt⟩
 
 /-- COMMIT (or the implicit commit of autocommit / BEGIN / SET autocommit=1) -/
 def commitTx (w : World) (i : Nat) (keepExplicit : Bool) : World × Res :=
@@ -248,7 +256,7 @@ def step (w : World) (i : Nat) : Stmt → World × Res × Option Root
     let w1 := ensureTx w i
     let s := w1.sess i
     -- `-A`: stage everything; nothing staged against the session's HEAD ⇒ SQL commit only + error
-    if rootEq s.work s.snap.head then
+    if rootEq s.work s.snap.head && !s.snap.hArt then
       -- doDoltCommit: "Nothing to commit. Finalize the transaction": CommitTransaction, then the error
       match commitTx w1 i true with
       | (w2, .ok) => (w2, .nothingToCommit, none)
